@@ -142,6 +142,31 @@ func (w *World) execAddrOp(ctx context.Context, toks []string) (bool, error) {
 		w.lastAddr = s.Address().String()
 		w.lastStore = s
 		w.extraStores = append(w.extraStores, s)
+	case "reuseopts":
+		// reuseopts p <namehex> <kind> : ONE options value, used first for Open(name, Create: true) — "open
+		// or create" — and then for a plain Create of the same name: the caller never asked to overwrite,
+		// the second call is over an existing local database and must be refused
+		p := atoi(toks[1])
+		name := w.expandName(toks[2]) + "-reused-options"
+		opts := w.dbOpts(p)
+		t := true
+		st := storeTypeOf(toks[3])
+		opts.Create = &t
+		opts.StoreType = &st
+		first, second := "err", "err"
+		if s1, err := w.peers[p].odb.Open(ctx, name, opts); err == nil {
+			first = "ok"
+			_ = s1.Close()
+		}
+		if s2, err := w.peers[p].odb.Create(ctx, name, st, opts); err == nil {
+			second = "ok"
+			_ = s2.Close()
+		}
+		ow := "unset"
+		if opts.Overwrite != nil {
+			ow = fmt.Sprint(*opts.Overwrite)
+		}
+		w.printf("reuseopts %d first=%s second=%s overwrite=%s\n", p, first, second, ow)
 	case "openaddr":
 		// openaddr p <strhex with @rN@> [localonly]
 		p := atoi(toks[1])
